@@ -753,6 +753,13 @@ class Gen:
                 if isinstance(v, str) and (v.strip() != v or not v or not v.isprintable()):
                     d = simple(std(BUINT, 8))
                     v = r.randint(0, 255)
+                # (a constant with bits outside the BIT-MASK of its own DOP cannot be represented: such a description
+                # contradicts itself; the encoder emits the masked value, the decoder then rejects its own PDU)
+                mk = d["dct"].get("mask")
+                if mk is not None and isinstance(v, int) and not isinstance(v, bool) and v >= 0:
+                    v &= mk
+                elif mk is not None and isinstance(v, (bytes, bytearray)):
+                    v = (int.from_bytes(v, "big") & mk).to_bytes(len(v), "big") if int.from_bytes(v, "big") & mk < 256 ** len(v) else v
                 kind = dict(k="physconst", dop=d, v=v)
                 bl = d["dct"]["bl"]
             elif x < 0.38 and response:
